@@ -256,7 +256,7 @@ func reproConfig(g *pkgGen, i int) genOut {
 	if c.Deb.Fields == nil {
 		c.Deb.Fields = map[string]string{}
 	}
-	for _, k := range []string{"Bugs", "Built-Using", "X-A", "X-B", "X-C", "X-D"} {
+	for _, k := range []string{"Bugs", "bugs", "Built-Using", "X-A", "x-a", "X-B", "X-C", "X-D"} {
 		c.Deb.Fields[k] = "v-" + k
 	}
 	if c.IPK.Fields == nil {
